@@ -747,3 +747,49 @@ def _mk_find(clsname):
 
 
 register(_mk_find("RuleContainsFieldCondition"))
+
+
+@register
+class NestedApply(Contract):
+    """NestedProcessingTransformation.apply: after the nested pipeline ran on the rule, the enclosing pipeline knows what happened inside:
+    applied items appended in order, applied ids and field-name ids united, field mappings merged, and the STATE written inside wins over
+    the enclosing pipeline's older value of the same key (later writes win, as everywhere in a pipeline)"""
+    id = "C13.NestedProcessingTransformation.apply"
+    target = "sigma.processing.transformations.meta:NestedProcessingTransformation.apply"
+    props = ("C13", "C12", "C14")
+    assumed = ["the nested pipeline's apply() and FieldMappingTracking.merge are abstract here; concrete small containers"]
+
+    def setup(self, E):
+        E.summaries[f"sigma.processing.transformations.base:PreprocessingTransformation.apply"] = lambda I, so, a, k: None
+        E.summaries[f"sigma.processing.transformations.base:Transformation.apply"] = lambda I, so, a, k: None
+
+    def args(self, I):
+        idx = I.E.index
+        v = {n: I.fresh(n, "str") for n in ("outer_k", "outer_only", "nested_k", "nested_only")}
+        merged = []
+        fm_outer = SObj("FieldMappings", {"merge": NativeFn("merge", lambda I2, a, k: merged.append(a[0]))})
+        fm_nested = SObj("FieldMappings", {})
+        outer = SObj("Pipeline", {"applied": [True], "applied_ids": {"o1"}, "field_name_applied_ids": {"fo"}, "field_mappings": fm_outer, "state": {"k": v["outer_k"], "only_outer": v["outer_only"]}})
+        ran = []
+
+        def napply(I2, a, k):
+            ran.append(a[0])
+        nested = SObj("Pipeline", {"apply": NativeFn("apply", napply), "applied": [False, True], "applied_ids": {"n1", "n2"}, "field_name_applied_ids": {"fn"}, "field_mappings": fm_nested,
+                                   "state": {"k": v["nested_k"], "only_nested": v["nested_only"]}})
+        me = SObj(idx.lookup("sigma.processing.transformations.meta:NestedProcessingTransformation"), {"_pipeline": outer, "_nested_pipeline": nested}, lazy=True)
+        rule = SObj(idx.lookup("sigma.rule.rule:SigmaRule"), {}, lazy=True)
+        return {"self": me, "args": [rule], "outer": outer, "nested": nested, "v": v, "merged": merged, "ran": ran, "rule": rule, "fm_nested": fm_nested}
+
+    def post(self, I, inp, r):
+        c, o, v = I.ctx, inp["outer"], inp["v"]
+        c.require(inp["ran"] == [inp["rule"]], "the nested pipeline is applied to the rule, once")
+        c.require(list(o.fields["applied"]) == [True, False, True], "applied flags of the nested items are appended in order")
+        c.require(set(o.fields["applied_ids"]) == {"o1", "n1", "n2"} and set(o.fields["field_name_applied_ids"]) == {"fo", "fn"}, "applied ids and field-name ids are united")
+        c.require(len(inp["merged"]) == 1 and inp["merged"][0] is inp["fm_nested"], "field mappings of the nested pipeline are merged into the enclosing one")
+        st = o.fields["state"]
+        st = I.force(st) if not isinstance(st, dict) else st
+        c.require(isinstance(st, dict) and set(st) == {"k", "only_outer", "only_nested"} and st["k"] is v["nested_k"] and st["only_outer"] is v["outer_only"] and st["only_nested"] is v["nested_only"],
+                  "state: keys of both, and for a key written inside the nested pipeline the nested (later) value wins")
+
+    def frame_ok(self, I, inp, obj, name):
+        return obj is inp["outer"] or obj is inp["self"]
